@@ -94,6 +94,13 @@ func runC14(c *fw.Ctx) {
 			return
 		}
 		c.Res.NonTrivial = true
+		// the child is a sharing with the parent's parameters
+		for _, id := range ids {
+			if a, b := child.Threshold(id), m.Threshold(id); a != b {
+				c.Violate(p.String()+"/child-threshold-differs", "path %s: party %q: the derived config records threshold %d, its parent %d", path, id, a, b)
+				return
+			}
+		}
 		if p == scen.FROSTTaproot && wantY.Y.Bit(0) == 1 {
 			wantY = wantY.Neg()
 		}
